@@ -975,3 +975,12 @@ Proof.
   - reflexivity.
   - intros H. apply andb_prop in H as [H1 H2]. apply hwsite_eqb_eq in H1. rewrite H1, (IH e H2). reflexivity.
 Qed.
+
+(* ---------------------------------------------------------------- configuration writes *)
+Theorem cfg_writes_sound (t : list cfgwrite) :
+  cfg_writes_ok t = true -> cfg_violations t = [] /\ forall w, In w t -> cfg_allowed w = true.
+Proof.
+  unfold cfg_writes_ok, cfg_violations. intros H. rewrite forallb_forall in H. split; [|exact H].
+  induction t as [|w t IH]; [reflexivity|]. cbn. rewrite (H w (or_introl eq_refl)). cbn.
+  apply IH. intros x Hx. apply H. now right.
+Qed.
